@@ -6,7 +6,7 @@ from . import common as C
 from . import shared
 
 META = {
-    "explanation": "C10.R1 who-may-call over every fs-mutating API in all workspace crates (removal only via remove_dir/remove_file in DeleteMatcher::delete, argument = the entry's own path()); "
+    "explanation": "C10.R1 who-may-call over every fs-mutating API in all workspace crates (removal only via remove_dir/remove_file in the removal routine — DeleteMatcher::delete, or DeleteMatcher::matches where the routine was folded into it — argument = the entry's own path()); "
                    "R2 decision table remove_dir iff is_dir && !path_is_symlink recovered from the event graph and compared on all assignments; "
                    "R3 failure path of DeleteMatcher::matches (Err => non-zero exit code, false; Ok => true; no quit/prune); R4 -delete arm sets depth_first; R5 nothing reachable from argument parsing removes anything",
     "decides": "which APIs can remove/rename/overwrite, with which path, under which decision; the shape of the failure path; the implied -depth",
